@@ -11,6 +11,7 @@
 #define XTL_XSYSTEM_HPP
 
 #if defined(__linux__)
+#  include <limits.h>
 #  include <unistd.h>
 #endif
 #if defined(_WIN32)
@@ -53,6 +54,10 @@ namespace xtl
     // verification hook: scaled-down internal buffer, so that the behaviour at the
     // buffer boundary can be explored with short paths; the code is otherwise unchanged
     constexpr std::size_t path_buffer_size = XTL_VERIF_PATH_BUFFER;
+#elif defined(__linux__) && defined(PATH_MAX)
+    // readlink neither NUL-terminates nor reports truncation: the buffer must hold the
+    // longest path the platform allows plus one spare element
+    constexpr std::size_t path_buffer_size = PATH_MAX + 1;
 #else
     constexpr std::size_t path_buffer_size = 1024;
 #endif
@@ -63,9 +68,10 @@ namespace xtl
 #endif
         std::memset(buffer, '\0', sizeof(buffer));
 #if defined(__linux__)
-        if (readlink("/proc/self/exe", buffer, sizeof(buffer)) != -1)
+        ssize_t length = readlink("/proc/self/exe", buffer, sizeof(buffer) - 1);
+        if (length != -1)
         {
-            path = buffer;
+            path.assign(buffer, static_cast<std::size_t>(length));
         }
         else
         {
